@@ -1,0 +1,12 @@
+//go:build verif
+
+// Machine-checked contracts for package l4http (comment-only; read by /verif/gvc).
+
+package l4http
+
+// The request-line sniffer: never panics on any buffered prefix and writes nothing (C04, C06). (The
+// rest of the matcher hands the bytes to net/http and golang.org/x/net/http2 and is not under contract.)
+//@ func (m MatchHTTP) isHttp(data []byte) (needMore bool, matched bool)
+//@ safety C04
+//@ assigns[C06] nothing
+//@ ensures[C06] needMore ==> !matched
